@@ -40,7 +40,11 @@ CORPUS = [None, True, False,
           2 ** 63 - 1, 2 ** 63 + 1, -(2 ** 63) - 1, 10 ** 40, -(10 ** 40),
           0.0, -0.0, 0.5, -0.5, 1.5, -1.5, 1e-300, 1e300, -1e300,
           float(2 ** 53), float(2 ** 53 + 2), 2 ** 53 + 1,
-          '', 'a', 'A', 'ab', 'b', 'é', '\U0001d4b3', '10', 'a b']
+          '', 'a', 'A', 'ab', 'b', 'é', '\U0001d4b3', '10', 'a b',
+          # multi-code-point strings: decomposed spellings, look-alikes
+          # under case folding / normalisation / trimming
+          'e\u0301', 'f', 'e', '\u1e9b\u0323', 'ß', 'ss', ' a', 'a ',
+          'a\x00', '\ufb01', 'fi']
 
 QUOTA = 20000
 ENGINE_OPTS = {'yaql.memoryQuota': QUOTA}
@@ -276,6 +280,11 @@ def _laws_shard(run, part, parts, triples):
                                      'c': common.enc(c)})
 
 
+# strings over base letters, combining marks and their precomposed forms
+MARKED = st.text(st.sampled_from('aeEf \u0301\u0323\u00e9\u1e9b\u00df0'),
+                 max_size=4)
+
+
 def _random_shard(run, n, shard):
     scalar = st.one_of(
         st.none(), st.booleans(), st.integers(),
@@ -294,7 +303,8 @@ def _random_shard(run, n, shard):
         st.tuples(st.floats(allow_nan=False, allow_infinity=False),
                   st.one_of(st.integers(), st.floats(allow_nan=False,
                                                      allow_infinity=False))),
-        st.tuples(st.text(max_size=4), st.text(max_size=4)))
+        st.tuples(st.text(max_size=4), st.text(max_size=4)),
+        st.tuples(MARKED, MARKED))
     laws = same.map(lambda p: {'kind': 'laws', 'a': common.enc(p[0]),
                                'b': common.enc(p[1])})
     run.hyp('random-laws', laws, lambda c: check_laws(run, c), n,
